@@ -94,8 +94,20 @@ Definition local_oneof_ok (sc : schema) (o : obj) : bool :=
      end) O raw (cfields (get_class sc c)).
 Definition oneof_ok (sc : schema) (o : obj) : bool := obj_all (local_oneof_ok sc) o.
 
+(* ---- a Python dict has pairwise distinct keys (an invariant of dict, not a restriction; the model's
+        PDict is a plain association list, so the theorems have to say it) ---- *)
+Fixpoint keys_distinct (sc : schema) (l : list pv) : bool :=
+  match l with
+  | [] => true
+  | k :: r => negb (existsb (fun k' => pv_eq sc k k' || pv_eq sc k' k) r) && keys_distinct sc r
+  end.
+Definition local_dicts_ok (sc : schema) (o : obj) : bool :=
+  forallb (fun x => match x with PDict d => keys_distinct sc (map fst d) | _ => true end) (oraw o).
+Definition dicts_ok (sc : schema) (o : obj) : bool := obj_all (local_dicts_ok sc) o.
+
 (* all hypotheses on the value *)
-Definition good (sc : schema) (o : obj) : bool := in_range sc o && oneof_ok sc o && json_supported sc o.
+Definition good (sc : schema) (o : obj) : bool :=
+  in_range sc o && oneof_ok sc o && dicts_ok sc o && json_supported sc o.
 
 (* ---- the result of the round trip ---- *)
 Definition sentinel (f : fdesc) : pv := if fopt f then PNone else PPlaceholder.
